@@ -4,7 +4,7 @@
    holds, meshes, names) is proved for the model of the code, for every size; the DFT itself
    (scipy's) is an abstract transform over any commutative ring with a root of unity w
    (hypotheses: w^n = 1 and sum_k w^(d k) = 0 for 0 < d < n). *)
-From DF Require Import Prelude Constants_gen Region Mesh Fft C11_shift C11_kmesh C11_names C11_dft.
+From DF Require Import Prelude Constants_gen Region Mesh Fft C11_shift C11_kmesh C11_names C11_dft C11_dftn.
 From Coq Require Import ZArithRing.
 
 (* ---------------------------------------------------------------- shifts *)
@@ -111,6 +111,23 @@ Theorem C11_linear : forall (K : Type) (k0 k1 : K) (kadd kmul ksub : K -> K -> K
   = kadd (kmul a (dft k0 k1 kadd kmul w n x k)) (kmul b (dft k0 k1 kadd kmul w n y k)).
 Proof. exact dft_linear. Qed.
 Print Assumptions C11_linear.
+
+(* any number of axes (the transform iterated along the axes, one root per axis, any shape):
+   linear, and the all-zero bin is the plain sum over all cells *)
+Theorem C11_linear_nd : forall (K : Type) (k0 k1 : K) (kadd kmul ksub : K -> K -> K) (kopp : K -> K),
+  ring_theory k0 k1 kadd kmul ksub kopp eq ->
+  forall (ws : list K) (ns : list nat) (a b : K) (x y : list nat -> K) (k : list nat),
+  dftn k0 k1 kadd kmul ws ns (fun i => kadd (kmul a (x i)) (kmul b (y i))) k
+  = kadd (kmul a (dftn k0 k1 kadd kmul ws ns x k)) (kmul b (dftn k0 k1 kadd kmul ws ns y k)).
+Proof. exact dftn_linear. Qed.
+Print Assumptions C11_linear_nd.
+
+Theorem C11_zero_bin_nd : forall (K : Type) (k0 k1 : K) (kadd kmul ksub : K -> K -> K) (kopp : K -> K),
+  ring_theory k0 k1 kadd kmul ksub kopp eq ->
+  forall (ws : list K) (ns : list nat) (x : list nat -> K), length ws = length ns ->
+  dftn k0 k1 kadd kmul ws ns x (repeat 0%nat (length ns)) = ksumn k0 kadd ns x.
+Proof. exact dftn_zero_bin. Qed.
+Print Assumptions C11_zero_bin_nd.
 
 (* the arrangement into the returned array is a re-indexing that commutes with every cell-wise
    map (component extraction, scaling): transforms act per component *)
